@@ -29,7 +29,10 @@ import traceback
 VERIF = os.path.dirname(os.path.dirname(os.path.abspath(__file__)))
 REPO = os.environ.get('NIBABEL_REPO', '/repo')
 LEAN = os.path.join(VERIF, 'lean')
-DRIVER = os.path.join(LEAN, '.lake', 'build', 'bin', 'nbdriver')
+def driver_path(pid):
+    return os.path.join(LEAN, '.lake', 'build', 'bin', 'nbd_' + pid.lower())
+
+
 ALLOWED_AXIOMS = {'propext', 'Classical.choice', 'Quot.sound'}
 FORBIDDEN = re.compile(r'\bsorry\b|\badmit\b|^axiom\s|native_decide|bv_decide|implemented_by|\bunsafe\s|maxHeartbeats\s+0')
 
@@ -89,9 +92,9 @@ def lean_build(targets, timeout=1500):
     return rc == 0, out
 
 
-def build_driver(timeout=1500):
-    rc, out = sh(['lake', 'build', 'nbdriver'], cwd=LEAN, timeout=timeout)
-    return rc == 0 and os.path.exists(DRIVER), out
+def build_driver(pid, timeout=1500):
+    rc, out = sh(['lake', 'build', 'nbd_' + pid.lower()], cwd=LEAN, timeout=timeout)
+    return rc == 0 and os.path.exists(driver_path(pid)), out
 
 
 def strip_comments(src):
@@ -138,11 +141,12 @@ def audit_axioms(imports, theorems, timeout=900):
     return res, missing, out
 
 
-def run_driver(lines, timeout=1200):
+def run_driver(lines, timeout=1200, pid=None):
     """Feed protocol lines to the compiled Lean driver; returns list of output lines."""
     if not lines:
         return []
-    r = subprocess.run([DRIVER], input='\n'.join(lines) + '\n', stdout=subprocess.PIPE,
+    pid = pid or lines[0].split(' ', 1)[0]
+    r = subprocess.run([driver_path(pid)], input='\n'.join(lines) + '\n', stdout=subprocess.PIPE,
                        stderr=subprocess.PIPE, text=True, timeout=timeout)
     out = r.stdout.split('\n')
     if out and out[-1] == '':
@@ -226,7 +230,7 @@ def run_property(modname, tier, seed, replay=None):
     pid = mod.PID
     rng = random.Random(seed * 1000003 + int(pid[1:]))
     findings = load_findings(pid)
-    open_findings = [e for e in findings if e['status'] == 'open']
+    open_findings = [e for e in findings if e['status'] == 'open'] + list(getattr(mod, 'PENDING_FINDINGS', []))
     lines_out = []
 
     def say(s):
@@ -255,7 +259,7 @@ def run_property(modname, tier, seed, replay=None):
             errs = [l for l in log.splitlines() if l.startswith('error:')]
             broken.append(('proof-broken', 'lake build ' + ' '.join(mod.LEAN_TARGETS),
                            '\n'.join(errs[:12]) or log[-1500:]))
-        dok, dlog = build_driver()
+        dok, dlog = build_driver(pid)
     axioms, missing = {}, []
     if ok:
         axioms, missing, alog = audit_axioms(mod.LEAN_TARGETS, mod.THEOREMS)
